@@ -19,7 +19,7 @@ F2_EXC = ['SimFault', 'ZeroDivisionError', 'ValueError', 'NoConvergence', 'Overf
 class Machine(object):
     PROP = 'C11'
     DEFAULT_SEED = 1101
-    RUNS = {'quick': 1600, 'thorough': 40000}
+    RUNS = {'quick': 4500, 'thorough': 60000}
     WALL = {'quick': 150, 'thorough': 1500}
     MIN_WALL = 90
     BUDGET = {'quick': 150000, 'thorough': 400000}
@@ -223,8 +223,37 @@ class _Gen(object):
         self.nid += 1
         return self.nid
 
+    def sweep_program(self):
+        """Catalogue sweep: ten consecutive catalogue entries (every entry, with its
+        keyword variants, is reached ~30 times per quick batch) called on mp at a
+        precision that is not the image of an integer dps, half of the sweeps with
+        a fault in every other call."""
+        r = self.rng
+        ents = [e for e in catalogue.CAT if 'mp' in e.ctxs]
+        start = r.randrange(len(ents))
+        faulty = r.random() < 0.5
+        self.rate = 0.5 if faulty else 0.0
+        self.kinds = ['F1', 'F2']
+        steps = []
+        self.cfg['sweep'] = True
+        for k in range(10):
+            e = ents[(start + k) % len(ents)]
+            p = pick_prec(r, min(e.maxprec, 400))
+            while p in _DPS_IMAGES:
+                p += 1
+            s = {'kind': 'setprec', 'actor': 'mp', 'value': {'t': 'int', 'v': p}, 'id': self.new_id()}
+            self._track(s)
+            steps.append(s)
+            st = e.gen(r, self.cfgw, actor='mp')
+            st['id'] = self.new_id()
+            self.maybe_fault(st, e.cb)
+            steps.append(st)
+        return {'config': self.cfg, 'steps': steps}
+
     def program(self):
         r = self.rng
+        if r.random() < 0.25:
+            return self.sweep_program()
         steps = []
         created = set(['mp', 'iv', 'fp'])
         # starting precisions: ~70 % not the image of an integer dps
